@@ -413,7 +413,7 @@ def main():
     engine.phase(ck, 'shape families n <= 10^4', shard_shapes, [(list(c), 'asan', dl) for c in engine.chunks(sh, 12)], shapes=len(sh))
     engine.phase(ck, 'sources and odd targets', shard_sources, [dl])
     # (a) byte strings
-    for length in ([1, 2, 3, 4] if quick else [1, 2, 3, 4]):
+    def buf_strings(length):
         shards = []
         for fl in FLAGSETS:
             if length <= 2:
@@ -423,6 +423,8 @@ def main():
                     for j in (range(A) if length >= 4 else [None]):
                         shards.append((fl, 'buf', alpha, length, (i,) if j is None else (i, j), dl))
         engine.phase(ck, 'byte strings of length %d' % length, shard_sweep, shards, alphabet=A, flagsets=len(FLAGSETS))
+    for length in (1, 2, 3):
+        buf_strings(length)
     alpha_fp = alpha + [b'\0']
     for length in ([1, 2, 3] if quick else [1, 2, 3, 4]):
         shards = []
@@ -446,6 +448,7 @@ def main():
                 for ch in engine.chunks(frontier, 6):
                     shards.append((sid, fl, n, ch, dl))
         engine.phase(ck, 'E1 token sequences N=%d' % n, shard_e1, shards, schemas=len(S.family_F()), flagsets=len(FLAGSETS))
+    buf_strings(4)      # the largest product of the quick tier last
     if not quick:
         # MemorySanitizer pass (uninitialised reads): short byte strings, shapes up to 10^3, under clang -fsanitize=memory
         for length in (1, 2, 3):
